@@ -3,7 +3,9 @@
 Reads (stdlib `ast` only; nothing of cogent3 is imported or executed)
 
     parse/clustal.py   is_clustal_seq_line, delete_trailing_number
-    parse/phylip.py    is_blank, _split_line
+    parse/phylip.py    is_blank, _split_line, _get_header_info
+    util/io.py         get_format_suffixes   (as a function of `filename.suffix` and `filename.suffixes`; `filename = Path(filename)`
+                                              is the conversion that provides them, convention T5)
 
 and writes lean/CogentModel/Gen/C06Str.lean (a pure function of the source text: unchanged source => unchanged file).
 Props/C06Gen.lean proves every generated definition equal to the hand model (Model/Clustal.lean, Model/SeqFormats.lean)
@@ -12,11 +14,17 @@ for ALL arguments, so a semantic edit of one of these functions breaks a proof o
 Supported fragment -- anything else is a translation PROBLEM (reported, never skipped):
   statements   `x = e`; `if c: ...` whose body ends in `return` (the rest of the function is the else branch), `if/else`;
                `return e`; `return e1, e2` (a component that is `None` in some return makes that component `Option`);
-               `try: int(e); return a  except ValueError: return b`  ->  `if pyIntOk e then a else b`
+               `try: int(e); return a  except ValueError: return b`  ->  `if pyIntOk e then a else b`;
+               `a, b = list(map(int, l))` (l a list of str)  ->  the function returns `Except Err _`: the first failing `int()` or a
+               list that has not exactly as many items as targets is `.error .valueError` (convention T4: `int` is the model's `pyInt`)
   expressions  names, str / small int constants, `None` (only as a returned tuple component),
                `not e`, `a and b`, `a or b` (operands are taken by their truth value; the result is a Bool -- convention T1),
                `s.strip() s.rstrip() s.split() s.isspace() s.startswith(lit) s.replace(c, "")` (c one character),
-               `" ".join(l)`, `"".join(l)`, `s[a:b] s[a:] s[:b] l[:-1] l[-1] s[0]` (a, b names or non-negative constants)
+               `" ".join(l)`, `"".join(l)`, `s[a:b] s[a:] s[:b] l[:-1] l[-1] s[0]` (a, b names or non-negative constants),
+               a tuple of str constants (a list), `[<e> for v in <list>]`, `l[0]`, `l[-2:]`, `e in <list>`, `x is None`, `x is not None`,
+               `_wout_period.sub("", s)` (checked: `_wout_period = re.compile(r"^\.")`), `s.lower()` (ASCII), `obj.attr` of ATTR_PARAMS,
+               `if c: x = e1 elif ...: x = e2 else: x = e3` (one variable, every branch one assignment; `None` makes it an Option),
+               `len(x)`, `e1 < e2`, `<=`, `>`, `>=`, `==`, `!=` between `len(...)`s and non-negative constants
 Conventions (stated in the generated header too)
   T1  a Python `and`/`or` returns one of its operands; every caller of the translated predicates uses the result only as a
       condition (`filter(is_clustal_seq_line, ...)`), so the translation is its truth value.
@@ -29,12 +37,17 @@ import ast
 from pathlib import Path
 
 FUNCS = [("parse/clustal.py", "is_clustal_seq_line"), ("parse/clustal.py", "delete_trailing_number"),
-         ("parse/phylip.py", "is_blank"), ("parse/phylip.py", "_split_line")]
+         ("parse/phylip.py", "is_blank"), ("parse/phylip.py", "_split_line"), ("parse/phylip.py", "_get_header_info"),
+         ("util/io.py", "get_format_suffixes")]
 # parameter types (everything else is inferred)
 PARAM_TYPES = {"id_offset": "Nat"}
 LEAN_NAME = {"is_clustal_seq_line": "is_clustal_seq_line", "delete_trailing_number": "delete_trailing_number",
-             "is_blank": "is_blank", "_split_line": "split_line"}
-STR, BOOL, LST, NAT, NONE = "Str", "Bool", "List Str", "Nat", "None"
+             "is_blank": "is_blank", "_split_line": "split_line", "_get_header_info": "get_header_info",
+             "get_format_suffixes": "get_format_suffixes"}
+# a parameter that is an object: its attributes read by the function become the parameters of the translation
+ATTR_PARAMS = {"get_format_suffixes": {"filename": {"suffix": ("filename_suffix", "Str"), "suffixes": ("filename_suffixes", "List Str")}}}
+OPT = "Option Str"
+STR, BOOL, LST, NAT, NONE, INT = "Str", "Bool", "List Str", "Nat", "None", "Int"
 
 
 class TranslationError(Exception):
@@ -48,12 +61,22 @@ def _lit(s: str) -> str:
 class Fn:
     def __init__(self, node: ast.FunctionDef):
         self.node = node
-        self.env = {a.arg: PARAM_TYPES.get(a.arg, STR) for a in node.args.args}
+        self.attrs = ATTR_PARAMS.get(node.name, {})
+        self.env = {}
+        self.module = None
+        for a in node.args.args:
+            if a.arg in self.attrs:
+                for lean, ty in self.attrs[a.arg].values():
+                    self.env[lean] = ty
+            else:
+                self.env[a.arg] = PARAM_TYPES.get(a.arg, STR)
+        self.nparams = len(self.env)
         if node.args.vararg or node.args.kwarg or node.args.kwonlyargs or node.args.defaults:
             raise TranslationError(f"{node.name}: only plain positional parameters are supported")
         self.ret_arity = None
         self.ret_none = set()  # tuple positions that are None in some return
         self.ret_type = None
+        self.fallible = any(self._int_unpack(n) is not None for n in ast.walk(node))
         for n in ast.walk(node):
             if isinstance(n, ast.Return):
                 self._scan_return(n)
@@ -70,6 +93,42 @@ class Fn:
         for i, e in enumerate(elts or []):
             if isinstance(e, ast.Constant) and e.value is None:
                 self.ret_none.add(i)
+
+    @staticmethod
+    def _if_assign(s):
+        """`if c1: x = e1  elif c2: x = e2 ... else: x = en` -> (x, [(c1, e1), ...], en)"""
+        arms, name = [], None
+        while isinstance(s, ast.If):
+            if not (len(s.body) == 1 and isinstance(s.body[0], ast.Assign) and len(s.body[0].targets) == 1
+                    and isinstance(s.body[0].targets[0], ast.Name) and len(s.orelse) == 1):
+                return None
+            n = s.body[0].targets[0].id
+            if name not in (None, n):
+                return None
+            name = n
+            arms.append((s.test, s.body[0].value))
+            s = s.orelse[0]
+        if not arms or not (isinstance(s, ast.Assign) and len(s.targets) == 1 and isinstance(s.targets[0], ast.Name)
+                            and s.targets[0].id == name):
+            return None
+        return name, arms, s.value
+
+    def _opt_val(self, v):
+        if isinstance(v, ast.Constant) and v.value is None:
+            return "none", NONE
+        return self.expr(v)
+
+    @staticmethod
+    def _int_unpack(s):
+        """`a, b, ... = list(map(int, <expr>))` -> (names, expr)"""
+        if isinstance(s, ast.Assign) and len(s.targets) == 1 and isinstance(s.targets[0], ast.Tuple) \
+                and all(isinstance(t, ast.Name) for t in s.targets[0].elts) and isinstance(s.value, ast.Call) \
+                and isinstance(s.value.func, ast.Name) and s.value.func.id == "list" and len(s.value.args) == 1 and not s.value.keywords:
+            m = s.value.args[0]
+            if isinstance(m, ast.Call) and isinstance(m.func, ast.Name) and m.func.id == "map" and len(m.args) == 2 and not m.keywords \
+                    and isinstance(m.args[0], ast.Name) and m.args[0].id == "int":
+                return [t.id for t in s.targets[0].elts], m.args[1]
+        return None
 
     # ---- expressions: returns (lean text, type) ----
     def truth(self, e):
@@ -110,10 +169,58 @@ class Fn:
         if isinstance(e, ast.BoolOp):
             op = " && " if isinstance(e.op, ast.And) else " || "
             return "(" + op.join(self.par(self.truth(v)) for v in e.values) + ")", BOOL
+        if isinstance(e, ast.Attribute) and isinstance(e.value, ast.Name) and e.value.id in self.attrs:
+            if e.attr not in self.attrs[e.value.id]:
+                raise TranslationError(f"{f}: attribute {e.value.id}.{e.attr} is not declared")
+            return self.attrs[e.value.id][e.attr]
+        if isinstance(e, ast.Tuple) and e.elts and all(isinstance(x, ast.Constant) and isinstance(x.value, str) for x in e.elts):
+            return "[" + ", ".join(_lit(x.value) for x in e.elts) + "]", LST
+        if isinstance(e, ast.ListComp) and len(e.generators) == 1 and not e.generators[0].ifs and not e.generators[0].is_async \
+                and isinstance(e.generators[0].target, ast.Name):
+            src, sty = self.expr(e.generators[0].iter)
+            if sty != LST:
+                raise TranslationError(f"{f}: comprehension over a {sty}")
+            v = e.generators[0].target.id
+            if v in self.env:
+                raise TranslationError(f"{f}: comprehension variable {v} shadows a name")
+            self.env[v] = STR
+            body, bty = self.expr(e.elt)
+            del self.env[v]
+            if bty != STR:
+                raise TranslationError(f"{f}: comprehension of a {bty}")
+            return f"{self.par(src)}.map (fun {v} => {body})", LST
+        if isinstance(e, ast.Compare) and len(e.ops) == 1 and isinstance(e.ops[0], (ast.Is, ast.IsNot)) \
+                and isinstance(e.comparators[0], ast.Constant) and e.comparators[0].value is None:
+            t, ty = self.expr(e.left)
+            if ty != OPT:
+                raise TranslationError(f"{f}: `is None` test of a {ty}")
+            return f"{self.par(t)}.{'isNone' if isinstance(e.ops[0], ast.Is) else 'isSome'}", BOOL
+        if isinstance(e, ast.Compare) and len(e.ops) == 1 and isinstance(e.ops[0], (ast.In, ast.NotIn)):
+            l, lty = self.expr(e.left)
+            r, rty = self.expr(e.comparators[0])
+            if lty != STR or rty != LST:
+                raise TranslationError(f"{f}: `{lty} in {rty}`")
+            t = f"{self.par(r)}.contains {self.par(l)}"
+            return (f"!({t})" if isinstance(e.ops[0], ast.NotIn) else t), BOOL
+        if isinstance(e, ast.Call) and isinstance(e.func, ast.Name) and e.func.id == "len" and len(e.args) == 1 and not e.keywords:
+            t, ty = self.expr(e.args[0])
+            if ty not in (STR, LST):
+                raise TranslationError(f"{f}: len of a {ty}")
+            return f"{self.par(t)}.length", NAT
         if isinstance(e, ast.Call):
             return self.call(e)
         if isinstance(e, ast.Subscript):
             return self.subscript(e)
+        OPS = {ast.Lt: "<", ast.LtE: "≤", ast.Gt: ">", ast.GtE: "≥", ast.Eq: "=", ast.NotEq: "≠"}
+        if isinstance(e, ast.Compare) and len(e.ops) == 1 and type(e.ops[0]) in OPS:
+            def num(x):
+                if isinstance(x, ast.Constant) and isinstance(x.value, int) and not isinstance(x.value, bool) and x.value >= 0:
+                    return str(x.value)
+                t, ty = self.expr(x)
+                if ty != NAT:
+                    raise TranslationError(f"{f}: comparison of a {ty}")
+                return t
+            return f"decide ({num(e.left)} {OPS[type(e.ops[0])]} {num(e.comparators[0])})", BOOL
         raise TranslationError(f"{f}: unsupported expression {type(e).__name__}")
 
     def call(self, e):
@@ -134,10 +241,19 @@ class Fn:
             if sep == "":
                 return f"PyStr.joinEmpty {self.par(a)}", STR
             raise TranslationError(f"{f}: join with separator {sep!r}")
+        if m == "sub" and isinstance(e.func.value, ast.Name) and e.func.value.id == "_wout_period" and len(e.args) == 2 \
+                and isinstance(e.args[0], ast.Constant) and e.args[0].value == "":
+            self.check_const("_wout_period", "re.compile('^\\\\.')")
+            a, ty = self.expr(e.args[1])
+            if ty != STR:
+                raise TranslationError(f"{f}: _wout_period.sub of a {ty}")
+            return f"PyStr.woutPeriod {self.par(a)}", STR
         r, ty = self.expr(e.func.value)
         if ty != STR:
             raise TranslationError(f"{f}: method .{m} of a {ty}")
         r = self.par(r)
+        if m == "lower" and not e.args:
+            return f"PyStr.lower {r}", STR
         if m in ("strip", "rstrip", "split", "isspace") and not e.args:
             return {"strip": (f"strip {r}", STR), "rstrip": (f"Clustal.rstrip {r}", STR), "split": (f"splitWs {r}", LST),
                     "isspace": (f"PyStr.isspace {r}", BOOL)}[m]
@@ -147,6 +263,21 @@ class Fn:
                 and len(e.args[0].value) == 1 and e.args[1].value == "":
             return f"PyStr.removeChar {_lit(e.args[0].value)[1:-1]} {r}", STR
         raise TranslationError(f"{f}: unsupported method call .{m}({', '.join(ast.dump(a)[:30] for a in e.args)})")
+
+    def check_const(self, name, want):
+        body = list(self.module.body if self.module else [])
+        for n in list(body):  # `from cogent3.a.b import name`: the constant lives in a/b.py
+            if isinstance(n, ast.ImportFrom) and n.module and n.module.startswith("cogent3.") and any(a.name == name and a.asname is None for a in n.names):
+                try:
+                    body = ast.parse((self.src / (n.module[len("cogent3."):].replace(".", "/") + ".py")).read_text()).body
+                except (OSError, SyntaxError):
+                    raise TranslationError(f"{self.node.name}: cannot read the module {n.module} that defines {name}")
+        for n in body:
+            if isinstance(n, ast.Assign) and len(n.targets) == 1 and isinstance(n.targets[0], ast.Name) and n.targets[0].id == name:
+                if ast.unparse(n.value) == want:
+                    return
+                raise TranslationError(f"{self.node.name}: {name} is {ast.unparse(n.value)}, expected {want}")
+        raise TranslationError(f"{self.node.name}: module constant {name} not found")
 
     def subscript(self, e):
         f = self.node.name
@@ -161,6 +292,9 @@ class Fn:
                 raise TranslationError(f"{f}: slice of a {ty}")
             if s.lower is None and s.upper is not None and neg1(s.upper):
                 return f"{v}.dropLast", ty
+            if s.upper is None and isinstance(s.lower, ast.UnaryOp) and isinstance(s.lower.op, ast.USub) \
+                    and isinstance(s.lower.operand, ast.Constant) and s.lower.operand.value == 2 and ty == LST:
+                return f"PyStr.lastTwo {v}", ty
             if s.lower is not None and s.upper is None:
                 return f"{v}.drop {self.nat(s.lower)}", ty
             if s.lower is None and s.upper is not None:
@@ -172,6 +306,8 @@ class Fn:
             return f"PyStr.lastD {v}", STR
         if isinstance(s, ast.Constant) and s.value == 0 and ty == STR:
             return f"PyStr.at0 {v}", STR
+        if isinstance(s, ast.Constant) and s.value == 0 and ty == LST:
+            return f"PyStr.headD {v}", STR
         raise TranslationError(f"{f}: unsupported subscript {ast.dump(s)[:60]}")
 
     # ---- statements ----
@@ -184,12 +320,18 @@ class Fn:
                     parts.append("none")
                     continue
                 t, ty = self.expr(x)
+                if ty == OPT:
+                    if i not in self.ret_none:
+                        raise TranslationError(f"{self.node.name}: an Option is returned where no return has None")
+                    self._note_ret(("tuple", i), STR)
+                    parts.append(t)
+                    continue
                 self._note_ret(("tuple", i), ty)
                 parts.append(f"some {self.par(t)}" if i in self.ret_none else t)
-            return ind + "(" + ", ".join(parts) + ")"
+            return ind + (".ok " if self.fallible else "") + "(" + ", ".join(parts) + ")"
         t, ty = self.expr(v)
         self._note_ret("value", ty)
-        return ind + t
+        return ind + (f".ok ({t})" if self.fallible else t)
 
     def _note_ret(self, key, ty):
         self.ret_type = self.ret_type or {}
@@ -205,6 +347,40 @@ class Fn:
             return self.block(rest, ind)  # docstring
         if isinstance(s, ast.Return):
             return self.ret(s, ind)
+        if isinstance(s, ast.Assign) and len(s.targets) == 1 and isinstance(s.targets[0], ast.Name) and s.targets[0].id in self.attrs \
+                and isinstance(s.value, ast.Call) and isinstance(s.value.func, ast.Name) and s.value.func.id == "Path" \
+                and len(s.value.args) == 1 and isinstance(s.value.args[0], ast.Name) and s.value.args[0].id == s.targets[0].id:
+            return self.block(rest, ind)  # convention T5
+        ia = self._if_assign(s)
+        if ia is not None:
+            name, arms, last = ia
+            vals = [self._opt_val(v) for _, v in arms] + [self._opt_val(last)]
+            opt = any(ty == NONE for _, ty in vals)
+            tys = {ty for _, ty in vals if ty != NONE}
+            if len(tys) != 1 or (opt and tys != {STR}):
+                raise TranslationError(f"{f}: branches of the assignment to {name} have types {sorted(tys)}")
+            ty = OPT if opt else tys.pop()
+            wrap = (lambda t, vty: "none" if vty == NONE else f"some {self.par(t)}") if opt else (lambda t, vty: t)
+            text = ""
+            for (c, _), (t, vty) in zip(arms, vals):
+                text += f"if {self.truth(c)} then {wrap(t, vty)} else "
+            text += wrap(*vals[-1])
+            if self.env.get(name, ty) != ty:
+                raise TranslationError(f"{f}: {name} changes its type")
+            self.env[name] = ty
+            return f"{ind}let {name} : {ty} := {text}\n" + self.block(rest, ind)
+        iu = self._int_unpack(s)
+        if iu is not None:
+            names, src = iu
+            t, ty = self.expr(src)
+            if ty != LST:
+                raise TranslationError(f"{f}: map(int, ...) over a {ty}")
+            for n in names:
+                if self.env.get(n, INT) != INT:
+                    raise TranslationError(f"{f}: {n} changes its type")
+                self.env[n] = INT
+            return (f"{ind}match PyStr.mapInt {self.par(t)} with\n{ind}| .error e => .error e\n{ind}| .ok [{', '.join(names)}] =>\n"
+                    + self.block(rest, ind + "  ") + f"\n{ind}| .ok _ => .error .valueError")
         if isinstance(s, ast.Assign) and len(s.targets) == 1 and isinstance(s.targets[0], ast.Name):
             t, ty = self.expr(s.value)
             name = s.targets[0].id
@@ -242,20 +418,24 @@ class Fn:
         raise TranslationError(f"{f}: unsupported statement {type(s).__name__}")
 
     def emit(self):
-        params = list(self.env.items())
+        params = list(self.env.items())[:self.nparams]
         body = self.block(self.node.body, "  ")
         if self.ret_arity:
             rt = " × ".join((f"Option {self.ret_type[('tuple', i)]}" if i in self.ret_none else self.ret_type[("tuple", i)])
                             for i in range(self.ret_arity))
         else:
             rt = self.ret_type["value"]
+        if self.fallible:
+            rt = f"Except Err ({rt})"
         sig = " ".join(f"({n} : {t})" for n, t in params)
         return f"def {LEAN_NAME[self.node.name]} {sig} : {rt} :=\n{body}\n"
 
 
-HEADER = """/- GENERATED by translator/c06_str2lean.py from cogent3/parse/clustal.py and cogent3/parse/phylip.py on every run -- do not edit.
+HEADER = """/- GENERATED by translator/c06_str2lean.py from cogent3/parse/clustal.py, cogent3/parse/phylip.py and cogent3/util/io.py on every run -- do not edit.
    Conventions: T1 `and`/`or` are translated to their truth value; T2 `s[0]` / `l[-1]` of an empty operand (IndexError) is "";
-   T3 `int(tok)` succeeds iff Clustal.pyIntOk tok. -/
+   T3 `int(tok)` succeeds iff Clustal.pyIntOk tok; T4 in `a, b = list(map(int, l))` `int` is `pyInt` (sign + ASCII digits), a failing
+   `int()` or a wrong number of items is `.error .valueError`; T5 `filename = Path(filename)`: the translation is a function of the
+   attributes `filename.suffix` / `filename.suffixes` of that Path; `l[0]` / `l[-1]` of an empty list (IndexError) is "" (T2). -/
 import CogentModel.Model.PyStr
 namespace CogentModel.Gen.C06Str
 open CogentModel CogentModel.SeqFormats
@@ -279,7 +459,10 @@ def translate(src: Path):
             problems.append(f"{rel}: expected exactly one module-level function {name}, found {len(fns)}")
             continue
         try:
-            defs.append(f"/-- `{name}` ({rel}) -/\n" + Fn(fns[0]).emit())
+            fn = Fn(fns[0])
+            fn.module = tree
+            fn.src = src
+            defs.append(f"/-- `{name}` ({rel}) -/\n" + fn.emit())
         except TranslationError as e:
             problems.append(str(e))
     if problems:
